@@ -1,6 +1,7 @@
 /- helper definitions and lemmas for Props/C07more.lean: renumbering of cell ids and of mesh-edge ids, all cells stored
    differently at once, the classification of interfaces under storage variants -/
 import ForsysModel.Proofs.C07order
+import ForsysModel.Proofs.C04system
 namespace Forsys
 
 /-! ### renumbering the cell ids / the mesh-edge ids -/
@@ -119,6 +120,37 @@ theorem memRev_cand_forall₂ (isJ : Id → Bool) (cells' cells : List (Id × Ce
       · exact Or.inl h
       · obtain ⟨q', hq', hp'⟩ := ih.2 ⟨q, hq, hp⟩
         exact Or.inr ⟨q', hq', hp'⟩
+
+/-! ### `are_neighbours` on a cycle stored differently -/
+
+theorem cyclicNeighbours_rotate (ids : List Id) (hn : ids.Nodup) (k : Nat) (a b : Id) :
+    cyclicNeighbours (ids.rotate k) a b = cyclicNeighbours ids a b := by
+  rw [Bool.eq_iff_iff, cyclicNeighbours_spec _ (List.nodup_rotate.mpr hn), cyclicNeighbours_spec ids hn,
+    cyclicPairs_rotate, List.mem_rotate, List.mem_rotate]
+
+theorem cyclicNeighbours_sameCycle (w v : List Id) (h : SameCycle w v) (hn : v.Nodup) (a b : Id) :
+    cyclicNeighbours w a b = cyclicNeighbours v a b := by
+  obtain ⟨k, rfl | rfl⟩ := h
+  · exact cyclicNeighbours_rotate v hn k a b
+  · rw [C04s.cyclicNeighbours_reverse _ (List.nodup_rotate.mpr hn), cyclicNeighbours_rotate v hn k a b]
+
+theorem alGet?_forall₂ {β : Type} {R : β → β → Prop} {l' l : List (Id × β)}
+    (h : List.Forall₂ (fun q' q => q'.1 = q.1 ∧ R q'.2 q.2) l' l) (k : Id) :
+    (alGet? k l' = none ∧ alGet? k l = none) ∨ ∃ c' c, alGet? k l' = some c' ∧ alGet? k l = some c ∧ R c' c := by
+  induction h with
+  | nil => exact Or.inl ⟨rfl, rfl⟩
+  | @cons q' q _ _ hab _ ih =>
+    obtain ⟨k', v'⟩ := q'
+    obtain ⟨k0, v0⟩ := q
+    obtain ⟨hk, hR⟩ := hab
+    simp only at hk hR
+    subst hk
+    unfold alGet?
+    by_cases hkk : k = k'
+    · rw [if_pos hkk, if_pos hkk]
+      exact Or.inr ⟨v', v0, rfl, rfl, hR⟩
+    · rw [if_neg hkk, if_neg hkk]
+      exact ih
 
 /-! ### physical interfaces -/
 
